@@ -12,13 +12,14 @@ import dataflow
 def run(ctx, rep):
     facts = ctx.mir
     rep.rule("A10", "lexical agreement on DFAs: every token class equals its reference language; ties resolved as in the reference; every keyword / reserved word is matched in full by a class that outranks IDENT and nothing else is taken from IDENT")
+    rep.rule("A10.vi", "exact tokenizer comparison under the runtime's real matching semantics (each pattern matched leftmost-first by the regex crate, longest overall match wins, ties by priority): the class of every string equals the reference's")
     rep.rule("A11", "syntactic agreement: bounded exploration of the product of the LR automata of the current grammar and of spec/aidl_ref.lalrpop (both built by lalrpop's own front-end), with and without recovery alternatives")
     rep.rule("S1", "every recovery alternative converts the recovered error, pushes the diagnostic and yields Ok(None)")
     rep.rule("S2-S4", "from_parse_error tabulated over the ParseError variants: an Error for InvalidToken / UnrecognizedEOF / UnrecognizedToken / ExtraToken, None only for User; no user action produces a User error; from_error_recovery keeps kind")
     rep.rule("S5", "add_content: Err branch pushes the converted error and stores no tree; a tree-less Ok result can only come from the recovery alternative of OptItem")
     rep.rule("S6", "append-only: every call applied to a Vec<Diagnostic> in code reachable from validation is push / sort_by_key / sort_by / clone / iteration; results keep `diagnostics` from the stored result")
     rep.rule("N1", "every stored user identifier originates from an IDENT token (wiring), and IDENT never matches a keyword (A10.iv)")
-    lexical.rules(ctx, rep, "C03", {"classes", "priority", "keywords", "finite"})
+    lexical.rules(ctx, rep, "C03", {"classes", "priority", "keywords", "finite", "tokenizer"})
     bound = 26 if ctx.tier == "thorough" else 22
     langdiff.rule(ctx, rep, "C03", bound)
     n, stats = common_g.emit(ctx, rep, "C03", {"recovery"}, "S1")
